@@ -10,14 +10,20 @@ def main():
         return 1
     try:
         print("gotab:", run_gotab())
+        open(os.path.join(COQ, "gen", ".stamp"), "w").close()
         with Lock("coq"):
             coq_makefile()
             rc, out = sh(["make", "-j%d" % NCPU], cwd=COQ, timeout=6 * 3600)
         if rc != 0:
             print(out[-3000:])
             return 1
-        build_impl()
-        build_model()
+        import importlib
+        for f in sorted(os.listdir(os.path.join(VERIF, "lib"))):
+            if re.match(r"c\d\d\.py$", f):
+                mod = importlib.import_module(f[:-3])
+                if hasattr(mod, "GOFILES"):
+                    build_impl(mod)
+                    build_model(mod)
     except BuildError as e:
         print(e.what)
         print(e.log[-3000:])
